@@ -398,6 +398,20 @@ impl Harness for C16 {
         for n in 6..=(if t { 16 } else { 12 }) {
             jobs.push(Job::new(format!("cv-shuffle-dev2-n{}", n), json!({"kind": "cv", "n": n, "shuffle": true, "dev": true})).with_dev_bound(2));
         }
+        // call sequences (every schedule of the first, shuffled call)
+        for n in 2..=(if t { 6usize } else { 5 }) {
+            jobs.push(Job::new(format!("seq-n{}", n), json!({"kind": "seq", "n": n, "shuffle": true})));
+        }
+        // large folds under shuffling: every schedule with at most one non-identity Fisher-Yates step
+        // (thorough: two on n = 32)
+        for n in [32usize, 33, 48, 64] {
+            jobs.push(Job::new(format!("kfold-shuffle-dev1-n{}", n), json!({"kind": "kfold", "n": n, "shuffle": true, "dev": true})).with_dev_bound(1));
+            jobs.push(Job::new(format!("split-shuffle-dev1-n{}", n), json!({"kind": "split", "n": n, "shuffle": true, "dev": true})).with_dev_bound(1));
+            jobs.push(Job::new(format!("cv-shuffle-dev1-n{}", n), json!({"kind": "cv", "n": n, "shuffle": true, "dev": true, "k": 2 + n % 3})).with_dev_bound(1));
+        }
+        if t {
+            jobs.push(Job::new("kfold-shuffle-dev2-n32", json!({"kind": "kfold", "n": 32, "shuffle": true, "dev": true})).with_dev_bound(2));
+        }
         let jobs = {
             let mut j: Vec<Job> = jobs;
             j.insert(0, Job::new("builders", json!({"kind": "builders"})));
@@ -408,9 +422,11 @@ impl Harness for C16 {
             budget_s: if t { 1500 } else { 40 },
             case_deadline_ms: 20_000,
             floors: vec![
-                ("builder_chains", 5),("uneven_folds", 100), ("non_identity_permutations", 100), ("split_empty_train", 10), ("large_fold_counts", 50)],
+                ("builder_chains", 5),("uneven_folds", 100), ("non_identity_permutations", 100), ("split_empty_train", 10), ("large_fold_counts", 50), ("call_sequences_shuffled_then_plain", 1000)],
             bounds: json!({
                 "builders": mc_sc::builders::BOUNDS,
+                "call_sequences": "n<=5 (6): {KFold, cross-validation, train/test split} with shuffling (every schedule) followed on the same thread by an unshuffled KFold / cross-validation of the same size, every (k1,k2)",
+                "shuffled_large_folds": "n in {32,33,48,64}: KFold (every k), split (every test size) and cross_val (one k) under every schedule with at most one non-identity Fisher-Yates step (two for n=32 in thorough)",
                 "kfold_unshuffled": "every 2<=k<=n<=64; plus n in {255,256,257,300,513} with k in {2,3,7,64,127..129,200,255..258,300,511..513,n}",
                 "split_unshuffled": format!("every 1<=n<=64 x {} test sizes with floor_f32(n*ts)>=1", TEST_SIZES.len()),
                 "shuffled_all_permutations": format!("every Fisher-Yates answer sequence (all n! permutations) for n<={} (kfold: every k; split: every test size), cv n<={}", nmax_all, if t { 7 } else { 5 }),
@@ -444,7 +460,10 @@ impl Harness for C16 {
                 split_case(n, ts, shuffle, mode);
             }
             "cv" => {
-                let k = 2 + mc::choose(n - 1);
+                let k = match job.params.get("k").and_then(|v| v.as_u64()) {
+                    Some(k) => k as usize,
+                    None => 2 + mc::choose(n - 1),
+                };
                 cv_case(n, k, shuffle, mode);
             }
             "kfold-large" | "cv-large" => {
@@ -456,6 +475,28 @@ impl Harness for C16 {
                     cv_case(n, k, shuffle, mode);
                 }
                 mc::count("large_fold_counts");
+            }
+            // call sequences on one thread: a shuffled split / cross-validation followed by an
+            // UNSHUFFLED one of the same size must leave no trace in the second (state that survives
+            // between calls: cached index buffers, thread-locals)
+            "seq" => {
+                let k1 = 2 + mc::choose(n - 1);
+                let k2 = 2 + mc::choose(n - 1);
+                match mc::choose(3) {
+                    0 => {
+                        kfold_case(n, k1, true, mode);
+                        kfold_case(n, k2, false, mode);
+                    }
+                    1 => {
+                        cv_case(n, k1, true, mode);
+                        cv_case(n, k2, false, mode);
+                    }
+                    _ => {
+                        split_case(n, mc::pick(TEST_SIZES), true, mode);
+                        kfold_case(n, k2, false, mode);
+                    }
+                }
+                mc::count("call_sequences_shuffled_then_plain");
             }
             "builders" => mc_sc::builders::run("C16"),
             other => panic!("unknown job kind {}", other),
